@@ -154,10 +154,25 @@ inline Gen<P2> pair_related()
     }, fe(), irange(0, 17), irange(0, 63), uni64());
 }
 
+// the low 64 bits of the INTEGER product a*b are chosen (tiny, just below 2^64, a multiple of 2^32, around 2^32): a = eps * b^-1 (mod 2^64)
+inline Gen<P2> pair_mul_lowword()
+{
+    return rc::gen::apply([](uint64_t b, uint64_t u, int k) -> P2 {
+        if (b == 0) b = 3;
+        uint64_t bo = b; int sh = 0; while (!(bo & 1)) { bo >>= 1; sh++; }
+        uint64_t x = bo; for (int i = 0; i < 6; i++) x *= 2 - bo * x; // bo^-1 mod 2^64
+        uint64_t eps;
+        switch (k) { case 0: eps = u % 64; break; case 1: eps = (uint64_t)0 - 1 - u % 64; break; case 2: eps = (u >> 32) << 32; break; case 3: eps = 0x100000000ull + (u % 5) - 2; break;
+                     case 4: eps = u >> 32; break; case 5: eps = 0xFFFFFFFF00000000ull + (u % 5) - 2; break; default: eps = (u | 0xFFFFFFFF00000000ull); break; }
+        uint64_t a = (eps >> sh) * x; if (sh) a &= (~(uint64_t)0) >> sh; // a*b = (eps >> sh) << sh  (mod 2^64)
+        return (u >> 63) ? P2{a, b} : P2{b, a};
+    }, fe(), uni64(), irange(0, 6));
+}
+
 inline Gen<P2> pair_add() { return rc::gen::weightedOneOf<P2>({{3, pair_indep()}, {4, pair_add_solved()}, {1, pair_hilo()}, {1, pair_related()}}); }
 inline Gen<P2> pair_sub() { return rc::gen::weightedOneOf<P2>({{3, pair_indep()}, {4, pair_sub_solved()}, {1, pair_hilo()}, {1, pair_related()}}); }
-inline Gen<P2> pair_mul() { return rc::gen::weightedOneOf<P2>({{3, pair_indep()}, {3, pair_mul_residue()}, {3, pair_mul_hipattern()}, {2, pair_hilo()}, {1, pair_related()}}); }
-inline Gen<P2> pair_any() { return rc::gen::weightedOneOf<P2>({{2, pair_indep()}, {2, pair_add_solved()}, {2, pair_sub_solved()}, {2, pair_mul_residue()}, {2, pair_mul_hipattern()}, {1, pair_hilo()}, {1, pair_related()}}); }
+inline Gen<P2> pair_mul() { return rc::gen::weightedOneOf<P2>({{3, pair_indep()}, {3, pair_mul_residue()}, {3, pair_mul_hipattern()}, {2, pair_hilo()}, {1, pair_related()}, {1, pair_mul_lowword()}}); }
+inline Gen<P2> pair_any() { return rc::gen::weightedOneOf<P2>({{2, pair_indep()}, {2, pair_add_solved()}, {2, pair_sub_solved()}, {2, pair_mul_residue()}, {2, pair_mul_hipattern()}, {1, pair_hilo()}, {1, pair_related()}, {1, pair_mul_lowword()}}); }
 
 // n field elements
 inline Gen<std::vector<uint64_t>> fe_vec(size_t n) { return rc::gen::container<std::vector<uint64_t>>(n, fe()); }
